@@ -259,7 +259,11 @@ func (w *world) startAttempts(gb *coin.Block, good cipher.Sig, n int) ([]string,
 	for i := 0; i < n; i++ {
 		sig := good
 		kind := "good"
-		switch w.r.Intn(7) {
+		pick := w.r.Intn(7)
+		if n >= 7 { // scripted history: every variant once
+			pick = i % 7
+		}
+		switch pick {
 		case 0:
 			kind = "zero"
 			sig = cipher.Sig{}
@@ -806,6 +810,7 @@ var mutKinds = []string{
 	"dup_block", "old_block", "out_of_order", "second_genesis", "unknown_input",
 	"resigned_after_inject", "resigned_after_inject", "resigned_after_reject", "resigned_after_reject",
 	"huge_hours_create", "huge_hours_create", "huge_hours_spend", "huge_hours_spend",
+	"dup_txn_inflate", "dup_txn_inflate", "maxhours_create", "valid_null_addr",
 }
 
 // header mutations are submitted either re-signed by the publisher key (so only
@@ -826,6 +831,8 @@ type history struct {
 	nodeSig  *cipher.Sig // the signature the node itself produced most recently (publisher node)
 	pending  *opRec      // second half of a two-op pattern (near-identical items back to back)
 	pendKind string      // ... or the mutation kind to build right after the current op
+	variant  int         // >= 0: scripted sub-variant of the mutation kind (-1: random)
+	scripted bool        // scripted history: no random skipping, header mutants are re-signed
 }
 
 // nextValid builds a valid next block on the node's current head with k transactions.
@@ -1013,8 +1020,11 @@ func (h *history) mutate(kind string) (opRec, bool) {
 		var S, T coin.Transaction
 		var okS, okT bool
 		variant := r.Intn(4)
+		if h.variant >= 0 {
+			variant = (h.variant / 2) % 4
+		}
 		if len(sp) < 3 && variant >= 2 {
-			variant = r.Intn(2)
+			variant = variant % 2
 		}
 		switch variant {
 		case 0: // S.In = [Y, X], T.In = [X]
@@ -1038,7 +1048,7 @@ func (h *history) mutate(kind string) (opRec, bool) {
 			return opRec{}, false
 		}
 		txs := coin.Transactions{S, T}
-		if r.Bool() {
+		if (h.variant < 0 && r.Bool()) || (h.variant >= 0 && h.variant%2 == 1) {
 			txs = coin.Transactions{T, S}
 		}
 		// sometimes a third, independent transaction before / between / after
@@ -1060,6 +1070,128 @@ func (h *history) mutate(kind string) (opRec, bool) {
 			}
 		}
 		b.Body.Transactions = txs
+		rehash(&b)
+	case "valid_split", "valid_null_addr", "maxhours_create", "maxhours_spend", "dup_txn_inflate":
+		// scripted families built from the spendable outputs (see scriptFor)
+		var sp []coin.UxOut
+		for _, ux := range h.unspent {
+			if _, ok := w.keyOf[ux.Body.Address]; ok {
+				sp = append(sp, ux)
+			}
+		}
+		sort.Slice(sp, func(i, j int) bool { return sp[i].Body.Coins > sp[j].Body.Coins })
+		if len(sp) == 0 {
+			return opRec{}, false
+		}
+		switch kind {
+		case "valid_split":
+			// the richest output into four, each with hours: later families need several
+			// spendable outputs carrying hours
+			ux := sp[0]
+			c, hr := ux.Body.Coins, hoursAt(ux, head.Head.Time)
+			if c < 8 {
+				return opRec{}, false
+			}
+			q, hq := c/4, hr/8
+			outs := []coin.TransactionOutput{
+				{Address: w.addrs[0], Coins: q, Hours: hq}, {Address: w.addrs[1], Coins: q + 1, Hours: hq},
+				{Address: w.addrs[2], Coins: q + 2, Hours: hq}, {Address: w.addrs[3], Coins: c - 3*q - 3, Hours: hq},
+			}
+			b.Body.Transactions = coin.Transactions{w.buildTxn([]coin.UxOut{ux}, outs, txOpt{})}
+		case "valid_null_addr":
+			ux := sp[len(sp)-1]
+			if ux.Body.Coins < 2 {
+				ux = sp[0]
+			}
+			if ux.Body.Coins < 2 {
+				return opRec{}, false
+			}
+			outs := []coin.TransactionOutput{
+				{Address: cipher.Address{}, Coins: 1, Hours: 0},
+				{Address: w.addrs[1], Coins: ux.Body.Coins - 1, Hours: hoursAt(ux, head.Head.Time) / 2},
+			}
+			b.Body.Transactions = coin.Transactions{w.buildTxn([]coin.UxOut{ux}, outs, txOpt{})}
+		case "maxhours_create":
+			// an output with 2^64-1 hours (and one with 1 hour: the unchecked sum is 0): its
+			// accrued hours overflow at any later head time, which block verification
+			// tolerates (the input then counts for 0 hours)
+			ux := sp[len(sp)-1]
+			if ux.Body.Coins < 2000000 {
+				ux = sp[0]
+			}
+			if ux.Body.Coins < 2000000 {
+				return opRec{}, false
+			}
+			outs := []coin.TransactionOutput{
+				{Address: w.addrs[2], Coins: ux.Body.Coins - 1000000, Hours: 1},
+				{Address: w.addrs[3], Coins: 1000000, Hours: ^uint64(0)},
+			}
+			b.Body.Transactions = coin.Transactions{w.buildTxn([]coin.UxOut{ux}, outs, txOpt{})}
+			b.Head.Time = head.Head.Time + 1
+			if !w.arb || h.scripted {
+				h.pendKind = "maxhours_spend"
+			}
+		case "maxhours_spend":
+			var mx *coin.UxOut
+			for i := range sp {
+				if sp[i].Body.Hours == ^uint64(0) {
+					mx = &sp[i]
+				}
+			}
+			if mx == nil {
+				return opRec{}, false
+			}
+			outs := []coin.TransactionOutput{{Address: w.addrs[0], Coins: mx.Body.Coins, Hours: 0}}
+			b.Body.Transactions = coin.Transactions{w.buildTxn([]coin.UxOut{*mx}, outs, txOpt{})}
+			b.Head.Time = head.Head.Time + 7200 // a whole coin earns hours after an hour: the addition overflows
+		case "dup_txn_inflate":
+			// {T, X, T}: T a valid two-output spend burning all its hours (highest fee), given
+			// twice; X creates coins and keeps all its hours (fee 0: it sorts after T on an
+			// arbitrating node). Variants: order, and what is wrong with X.
+			var withHours []coin.UxOut
+			for _, ux := range sp {
+				if hoursAt(ux, head.Head.Time) > 0 && ux.Body.Coins >= 2 {
+					withHours = append(withHours, ux)
+				}
+			}
+			if len(withHours) == 0 || len(sp) < 2 {
+				return opRec{}, false
+			}
+			tin := withHours[0]
+			var xin *coin.UxOut
+			for i := range sp {
+				if sp[i].Hash() != tin.Hash() && sp[i].Body.Coins < ^uint64(0)-1000 {
+					xin = &sp[i]
+					break
+				}
+			}
+			if xin == nil {
+				return opRec{}, false
+			}
+			T := w.buildTxn([]coin.UxOut{tin}, []coin.TransactionOutput{
+				{Address: w.addrs[0], Coins: tin.Body.Coins / 2, Hours: 0},
+				{Address: w.addrs[1], Coins: tin.Body.Coins - tin.Body.Coins/2, Hours: 0}}, txOpt{})
+			v := h.variant
+			if v < 0 {
+				v = r.Intn(6)
+			}
+			xc := xin.Body.Coins + 1000
+			xo := txOpt{}
+			if v >= 3 {
+				xc = xin.Body.Coins // balanced, but signed by the wrong key
+				xo = txOpt{wrongKey: true}
+			}
+			X := w.buildTxn([]coin.UxOut{*xin}, []coin.TransactionOutput{
+				{Address: w.addrs[2], Coins: xc, Hours: hoursAt(*xin, head.Head.Time)}}, xo)
+			switch v % 3 {
+			case 0:
+				b.Body.Transactions = coin.Transactions{T, X, T}
+			case 1:
+				b.Body.Transactions = coin.Transactions{T, T, X}
+			default:
+				b.Body.Transactions = coin.Transactions{X, T, T}
+			}
+		}
 		rehash(&b)
 	case "resigned_after_inject", "resigned_after_reject":
 		// Two variants of ONE transaction body (same inputs and outputs, hence the same
@@ -1097,7 +1229,7 @@ func (h *history) mutate(kind string) (opRec, bool) {
 		// (an arbitrating node drops such a transaction when it sorts by fee: the
 		// checked output-hours sum of the fee calculator fails)
 		c, _ := sumIn(in0)
-		if c < 2 || (w.arb && r.Chance(70)) {
+		if c < 2 || (w.arb && !h.scripted && r.Chance(70)) {
 			return opRec{}, false
 		}
 		c1 := 1 + upTo(r, c-2)
@@ -1310,7 +1442,7 @@ func (h *history) mutate(kind string) (opRec, bool) {
 		return opRec{}, false
 	}
 	if headerMut[kind] {
-		resign = r.Chance(70)
+		resign = h.scripted || r.Chance(70)
 	}
 	var sb coin.SignedBlock
 	if resign {
@@ -1346,15 +1478,96 @@ func (h *history) mutate(kind string) (opRec, bool) {
 				return opRec{}, false
 			}
 			sb.Sig = srcs[r.Intn(len(srcs))]
+			switch h.variant { // scripted: 0 head, 1 the node's own last signature, 2 genesis, 3 first accepted block
+			case 0:
+				sb.Sig = srcs[0]
+			case 1:
+				if h.nodeSig != nil {
+					sb.Sig = *h.nodeSig
+				}
+			case 2:
+				if g, err := h.n.v.GetSignedBlockBySeq(0); err == nil && g != nil {
+					sb.Sig = g.Sig
+				}
+			case 3:
+				if len(h.accepted) > 0 {
+					sb.Sig = h.accepted[0].Sig
+				}
+			}
 		}
 	}
 	return opRec{kind: kind, resigned: resign, sb: sb}, true
 }
 
+type scriptStep struct {
+	kind    string
+	variant int
+}
+
+// scriptFor is the op list of the two SCRIPTED histories every run starts with
+// (history 0: arbitrating publisher node, history 1: follower). Every family that
+// once exposed a defect is present here deterministically, not left to sampling:
+// in-process signing followed by each replayed-signature variant, the duplicated
+// transaction with a coin-creating transaction sorting later, the multi-input
+// double spends in every position and order, re-signed variants after injection /
+// rejection, null-address outputs, huge / maximal hours created then spent, and
+// then every mutation kind of the catalogue once.
+func scriptFor(arb bool) []scriptStep {
+	var sc []scriptStep
+	add := func(k string, v int) { sc = append(sc, scriptStep{k, v}) }
+	add("valid_split", -1)
+	if arb {
+		add("node_signed", -1)
+		add("sig_replay", 0) // the head's signature = the one the node made last
+		add("sig_replay", 1)
+		add("valid", -1)
+		add("sig_replay", 1) // the node's last signature, no longer the head's
+		add("sig_replay", 0)
+		add("sig_replay", 2)
+		add("sig_replay", 3)
+		add("node_signed", -1)
+		add("sig_replay", 1)
+		add("sig_replay", 3)
+	} else {
+		add("valid", -1)
+		for v := 0; v < 4; v++ {
+			add("sig_replay", v)
+		}
+	}
+	for v := 0; v < 6; v++ {
+		add("dup_txn_inflate", v)
+	}
+	add("valid_split", -1)
+	for v := 0; v < 8; v++ {
+		add("dsp_inblock_multi", v)
+	}
+	add("resigned_after_inject", -1)
+	add("valid", -1)
+	add("resigned_after_reject", -1)
+	add("valid_null_addr", -1)
+	add("huge_hours_create", -1)
+	add("valid_split", -1)
+	add("maxhours_create", -1)
+	seen := map[string]bool{}
+	n := 0
+	for _, k := range mutKinds {
+		if seen[k] || k == "huge_hours_spend" || k == "maxhours_spend" {
+			continue
+		}
+		seen[k] = true
+		add(k, -1)
+		n++
+		if n%5 == 0 {
+			add("valid", -1)
+		}
+	}
+	return sc
+}
+
 func run(args []string) error {
 	f := ParseFlags("c01", args)
 	logging.Disable()
-	n := f.Budget(24, 300)
+	n := f.Budget(20, 300)
 	r := NewRng(f.Seed)
 	o := NewOut()
 	hist := Hist{}
@@ -1373,13 +1586,21 @@ func run(args []string) error {
 			return err
 		}
 		w := newWorld(r, dir)
+		if hi < 2 { // the two scripted histories
+			w.arb = hi == 0
+			w.genVol = 1e18
+		}
 		p := newPrinter(hi)
 		gb, err := coin.NewGenesisBlock(w.addrs[0], w.genVol, w.genTime)
 		if err != nil {
 			return err
 		}
 		genesis := w.sign(*gb, w.sec)
-		starts, startDescs := w.startAttempts(gb, genesis.Sig, 3)
+		nStarts := 3
+		if hi < 2 {
+			nStarts = 7
+		}
+		starts, startDescs := w.startAttempts(gb, genesis.Sig, nStarts)
 		for _, d := range startDescs {
 			hist.Add("start:" + strings.SplitN(d, ":", 2)[0])
 		}
@@ -1387,7 +1608,7 @@ func run(args []string) error {
 		if err != nil {
 			return err
 		}
-		h := &history{w: w, n: nd, p: p, gsig: genesis.Sig, genesis: genesis, hist: hist}
+		h := &history{w: w, n: nd, p: p, gsig: genesis.Sig, genesis: genesis, hist: hist, variant: -1, scripted: hi < 2}
 		// the genesis block as the model sees it (its outputs use the null source hash)
 		gname := func() string {
 			t := gb.Body.Transactions[0]
@@ -1416,7 +1637,14 @@ func run(args []string) error {
 		}
 		h.unspent = uxs
 		opsJSON = append(opsJSON, map[string]interface{}{"hist": hi, "op": 0, "kind": "init", "resigned": false, "result": "", "genesis_volume": fmt.Sprint(w.genVol), "start_attempts": strings.Join(startDescs, " ")})
+		var script []scriptStep
+		if hi < 2 {
+			script = scriptFor(w.arb)
+		}
 		nops := 10 + r.Intn(31)
+		if script != nil {
+			nops = 4 * len(script) // pending follow-ups take steps too; the loop stops when the script is done
+		}
 		if f.Tier != "quick" && r.Chance(10) {
 			nops = 60 + r.Intn(60)
 		}
@@ -1432,6 +1660,29 @@ func run(args []string) error {
 				pk := h.pendKind
 				op, ok = h.mutate(pk)
 				h.pendKind = ""
+			} else if script != nil {
+				if len(script) == 0 {
+					break
+				}
+				st := script[0]
+				script = script[1:]
+				h.variant = st.variant
+				switch st.kind {
+				case "valid":
+					if b, okb := h.nextValid(nd, h.unspent, 1+r.Intn(3)); okb {
+						op, ok = opRec{kind: "valid", resigned: true, sb: w.sign(b, w.sec)}, true
+					}
+				case "node_signed":
+					op, ok = h.nodeSigned()
+				default:
+					op, ok = h.mutate(st.kind)
+				}
+				h.variant = -1
+				if ok {
+					hist.Add("scripted:" + st.kind)
+				} else {
+					hist.Add("scripted_not_buildable:" + st.kind)
+				}
 			} else if r.Chance(42) || k == 1 {
 				if w.arb && r.Chance(35) {
 					op, ok = h.nodeSigned()
